@@ -329,6 +329,59 @@ def h_ports(ctx, outkind, thorough=False):
   ctx.check('no packet-in (a flow matched)', all(not isinstance(m, of.ofp_packet_in) for m in sent))
 
 
+def h_table(ctx, fault):
+  """output:OFPP_TABLE in a packet_out: [set_vlan_vid?, output:TABLE, set_dl_src, output:2] with a table entry (in_port 1 -> [set_dl_dst?, output:3]).  The table
+  works on the frame as modified so far; what the entry does to it stays with the entry (the rest of the list continues from the frame the list had);
+  fault: a DpPacketOut listener fails on a solver-chosen emission of a first packet_out - a second one afterwards is forwarded as if nothing had happened"""
+  env.get_core()
+  of = ctx.pox('pox.openflow.libopenflow_01'); swm = ctx.pox('pox.datapaths.switch'); pkt = ctx.pox('pox.lib.packet'); addrs = ctx.pox('pox.lib.addresses')
+  sw = swm.SoftwareSwitch(dpid=1, ports=4, max_buffers=0)
+  sent = []
+  class Conn:
+    def send(c, msg): sent.append(msg)
+    def set_message_handler(c, h): pass
+  sw.set_connection(Conn())
+  outs = []
+  failat = [None]
+  class ListenerFault(Exception): pass
+  def listener(e):
+    outs.append((e.port.port_no, e.packet.pack()))
+    if failat[0] is not None and len(outs) == failat[0]: raise ListenerFault()
+  sw.addListenerByName('DpPacketOut', listener)
+  def rx(msg):
+    try: sw.rx_message(sw._connection, type(msg).unpack_new(msg.pack())[1])
+    except ListenerFault: ctx.witness('fault')          # (OFConnection.read contains handler exceptions; the harness stands in for it)
+  entry_rewrites = bool(ctx.bool('entry_rewrites')); pre_tag = bool(ctx.bool('tag_first'))
+  edst = list(ctx.bytes('entry_dst', 6)); nsrc = list(ctx.bytes('new_src', 6)); vid = ctx.int('vid', 0, 4095)
+  eacts = ([of.ofp_action_dl_addr.set_dst(addrs.EthAddr(env.tobytes(ctx, edst)))] if entry_rewrites else []) + [of.ofp_action_output(port=3)]
+  rx(of.ofp_flow_mod(command=0, priority=7, match=of.ofp_match(in_port=1), actions=eacts))
+  def frame(tag):
+    pay = list(ctx.bytes('pay' + tag, 6))
+    return [2, 0, 0, 0, 0, 9], [2, 0, 0, 0, 0, 1], [0x08, 0x01] + pay
+  def expected(dst, src, rest):
+    mid = [0x81, 0x00, vid >> 8, vid & 255] if pre_tag else []
+    at_table = (edst if entry_rewrites else dst) + src + mid + rest
+    after = dst + nsrc + mid + rest
+    return [(3, env.tobytes(ctx, at_table)), (2, env.tobytes(ctx, after))]
+  def po(dst, src, rest):
+    acts = ([of.ofp_action_vlan_vid(vlan_vid=vid)] if pre_tag else []) + [of.ofp_action_output(port=of.OFPP_TABLE),
+            of.ofp_action_dl_addr.set_src(addrs.EthAddr(env.tobytes(ctx, nsrc))), of.ofp_action_output(port=2)]
+    return of.ofp_packet_out(in_port=1, data=env.tobytes(ctx, dst + src + rest), actions=acts)
+  if fault:
+    failat[0] = 1 + int(ctx.int('fail_at_emission', 0, 1))
+    rx(po(*frame('0')))
+    failat[0] = None; del outs[:]
+  d, s_, r = frame('1')
+  rx(po(d, s_, r))
+  exp = expected(d, s_, r)
+  ctx.check('two frames emitted: by the table entry on port 3, by the rest of the list on port 2', len(outs) == 2 and [o[0] for o in outs] == [3, 2])
+  if len(outs) == 2:
+    ctx.check('the table saw the frame as modified so far and applied its entry', ctx.Eq(outs[0][1], exp[0][1]))
+    ctx.check("the rest of the list continues from the list's own frame", ctx.Eq(outs[1][1], exp[1][1]))
+  ctx.check('no packet-in, no error', sent == [])
+  ctx.witness('done')
+
+
 def obligations(tier):
   thorough = tier != 'quick'
   cases = []
@@ -377,6 +430,8 @@ def obligations(tier):
                desc='packet_utils.checksum == RFC 1071 reference (the routine the reference edit uses to recompute checksums)'),
     Obligation('O1_rewrite', h_rewrite, cases, witnesses=('done',), max_decisions=20000,
                desc='emitted bytes == byte-level reference edit for action lists over all 12 action types'),
+    Obligation('O3_table', h_table, [dict(fault=False), dict(fault=True)], witnesses=('done', 'fault'), max_decisions=20000,
+               desc='output:TABLE inside a packet_out action list, also after a fault in a DpPacketOut listener during an earlier one'),
     Obligation('O2_ports', h_ports, [dict(outkind=k, thorough=thorough) for k in ('port', 'in_port', 'flood', 'all')], witnesses=('accepted', 'refused'), max_decisions=20000,
                desc='port config bits (via port_mod) x output kinds: egress set, receive rules, counters'),
   ]
